@@ -1205,6 +1205,12 @@ def build(tier='quick', seed=0):
                      derives=['Debug', 'TryFrom', 'FromStr'], tags=['forms']))
     full.append(decl('int', 'i32', sanitizers=[S('with', '|x: i32| -> i32 { x.wrapping_abs() }', 'closure')], validators=[V('less', '10', 10, 'lit')],
                      derives=['Debug', 'TryFrom'], tags=['forms']))
+    full.append(decl('int', 'i64', sanitizers=[S('with', 'move |x: i64| x / 2', 'closure')], validators=[V('predicate', 'move |x: &i64| *x != 4', form='closure')],
+                     derives=['Debug', 'TryFrom', 'FromStr'], tags=['forms']))
+    full.append(decl('int', 'u16', sanitizers=[S('with', '|_x| 7', 'closure')], derives=['Debug', 'From'], tags=['forms']))
+    full.append(decl('int', 'u16', sanitizers=[S('with', '|x| -> u16 { x + 1 }', 'closure')], derives=['Debug', 'From'], tags=['forms']))
+    full.append(decl('string', 'String', sanitizers=[S('with', '|s| { if s.starts_with(\'#\') { return s; } s.replace(\'_\', " ") }', 'closure'), S('trim'), S('lowercase')],
+                     validators=[V('not_empty'), V('len_char_max', '5', 5, 'lit')], derives=['Debug', 'TryFrom'], tags=['forms']))
     full.append(decl('float', 'f64', validators=[V('predicate', 'helpers::deep::pred_hf', form='path', callee='helpers::deep::pred_hf'), V('finite')],
                      derives=['Debug', 'TryFrom'], tags=['forms']))
     full.append(X(decl('int', 'i32', validators=[V('greater', '1', 1, 'lit')], derives=['Debug', 'TryFrom', 'Display'], tags=['forms']),
